@@ -13,7 +13,7 @@ PROP = {  # commit subject keyword -> property
     "used with two different element sizes": "C02",
     "double parameters were serialised": "C13",
     "bytecode encoder aborted": "C13",
-    "push/pop of r8-r15": "C10",
+    "push/pop of r8-r15": "C10", "MXCSR": "C10", "loadupib read two source bytes": "C03",
     "parser": "C14", "orc_parse_code": "C14", "_strtoll": "C14", "operand that starts like a number": "C14",
     "directive or an opcode before": "C14", "more than 16 tokens": "C14",
     "appending more than ORC_N_INSNS": "C05", "tables overflowed": "C05", "without any array variable": "C05",
